@@ -228,7 +228,11 @@ func verifHarnessC19() {
 			verifReach("popped")
 		case cZAdd:
 			f := verifChoice("fi", 2)
-			sc := scores[verifChoice("score", len(scores))]
+			ns := len(scores)
+			if v := verifParam("nscores"); v > 0 && v < ns {
+				ns = v
+			}
+			sc := scores[verifChoice("score", ns)]
 			ok, err := dts.ZAdd(key, sc, elems[f])
 			if wrong(vZSet) {
 				verifAssert(err == ErrWrongTypeOperation, "C19.zadd-wrongtype")
